@@ -39,13 +39,15 @@ def result_of(ret):
     return [float(x) for x in np.atleast_1d(ret[3])]
 
 
-def vec_close(a, b):
-    return len(a) == len(b) and all((x == y) or close(x, y, 1e-10) or abs(x - y) <= 1e-13 for x, y in zip(a, b))
+def vec_close(a, b, unit=0.0):
+    """relative comparison (integrands are scaled by 1e-12 .. 1e8); `unit` = size of the quantities a difference was formed from"""
+    return len(a) == len(b) and all((x == y) or (math.isnan(x) and math.isnan(y)) or
+                                    abs(x - y) <= 1e-10 * max(abs(x), abs(y)) + 1e-10 * unit for x, y in zip(a, b))
 
 
-def perform(sa, eo, cfg, L):
+def perform(sa, eo, cfg, L, container=None):
     return quiet(sa.performSpatiallyAdaptiv, 1, cfg["lmax"], eo, tol=L["tol"], max_evaluations=L["max"],
-                 min_evaluations=L["min"], print_output=False)
+                 min_evaluations=L["min"], print_output=False, refinement_container=container)
 
 
 def cont(sa, L):
@@ -76,8 +78,7 @@ def reentrance_probe(sa, ret):
              "evaluations": int(cp.refinement.evaluationstotal)}
     same = (vec_close(before["result"], after["result"]) and before["points"] == after["points"]
             and before["evaluations"] == after["evaluations"]
-            and (before["error"] == after["error"] or close(before["error"], after["error"], 1e-10)
-                 or (math.isnan(before["error"]) and math.isnan(after["error"]))))
+            and vec_close([before["error"]], [after["error"]]))
     return same, before, after, info
 
 
@@ -109,8 +110,9 @@ def check_config(ctx, drv, cfg, L2, max_index, case_out=None):
     case = {"cfg": cfg, "L2": L2}
     if case_out is not None:
         case_out.update(case)
-    rclass = c13.ref_class(c13.reference_of(cfg, _classes()["DyPoly"](cfg["coeffs"], cfg["powers"])))
+    rclass = c13.ref_class(c13.reference_of(cfg, c13.make_f(cfg)))
     base_tags = {"strategy": cfg["strategy"], "ref": rclass, "norm": cfg["norm"], "dim": cfg["dim"],
+                 "scale": cfg.get("scale", 1.0), "cache": cfg.get("cache", True),
                  "final_stop": "max" if L2["tol"] < 0 else ("min" if L2["tol"] >= 1e9 else "tol")}
 
     def corr(obs, impl, model, extra=None):
@@ -168,7 +170,8 @@ def check_config(ctx, drv, cfg, L2, max_index, case_out=None):
                 for k in range(len(before["result"])):
                     mdl = Fraction(drv.ask("inceval %s %d %s" % (fr(before["result"][k]), info["start_new"],
                                                                ",".join(fr(a[k]) for a in info["areas"]) or "-")))
-                    if not (close(after["result"][k], float(mdl), 1e-10) or abs(after["result"][k] - float(mdl)) <= 1e-13):
+                    size = max([abs(before["result"][k])] + [abs(a[k]) for a in info["areas"]])
+                    if abs(after["result"][k] - float(mdl)) > 1e-9 * size:
                         corr("reevaluation-adds-new-areas", after["result"][k], str(mdl), sub)
                 ctx.count("inceval_checked")
             inst = sa
@@ -192,6 +195,11 @@ def check_config(ctx, drv, cfg, L2, max_index, case_out=None):
                 bad = {}
                 if view(twin, cfg) != view(sa, cfg):
                     bad["view"] = True
+                # what the restored instance REPORTS before anything is recomputed: point count, evaluation count, result
+                rep_a = (int(sa.get_total_num_points()), int(sa.refinement.evaluationstotal), [float(x) for x in np.atleast_1d(sa.operation.get_result())])
+                rep_b = (int(twin.get_total_num_points()), int(twin.refinement.evaluationstotal), [float(x) for x in np.atleast_1d(twin.operation.get_result())])
+                if rep_a != rep_b:
+                    bad["reported"] = {"original (points, evaluations, result)": rep_a, "restored": rep_b}
                 try:
                     a_call = np.asarray(quiet(sa, list(rng_pts)), dtype=float)
                     b_call = np.asarray(quiet(twin, list(rng_pts)), dtype=float)
@@ -232,7 +240,8 @@ def check_config(ctx, drv, cfg, L2, max_index, case_out=None):
             if differs:
                 # is the difference exactly "the areas that were new at the interruption were added a second time"?
                 tags["delta_is_new_areas"] = bool(new_sum is not None and set(differs) <= {"result", "evaluations"} and
-                                                  vec_close([a - b for a, b in zip(res2, res0)], new_sum))
+                                                  vec_close([a - b for a, b in zip(res2, res0)], new_sum,
+                                                            unit=max([abs(x) for x in res0 + res2] + [0.0])))
                 ok = not ctx.violation("resume-vs-single", dict(tags, differs="+".join(differs)), sub,
                               {"differs": differs, "single": {"result": res0, "points": pts0, "evaluations": ev0, "stream_points": [x[1] for x in stream]},
                                "resumed": {"result": res2, "points": pts2, "evaluations": ev2, "points_array": [int(x) for x in r2[6]]},
@@ -243,9 +252,48 @@ def check_config(ctx, drv, cfg, L2, max_index, case_out=None):
                 corr("resumed-arrays", "lens=%d,%d,%d pts=%s" % (len(r2[5]), len(r2[6]), len(r2[7]), [int(x) for x in r2[6]]),
                      "lens=%d,%d,%d pts=%s" % (pred["lens"][0], pred["lens"][1], pred["lens"][2], pred["pts"]), sub)
                 # (the theorem gives the final error only under re-entrance of the evaluation at the interruption state)
-                if reent and not (r2[5][-1] == r0[5][-1] or close(r2[5][-1], r0[5][-1], 1e-10) or (math.isnan(r2[5][-1]) and math.isnan(r0[5][-1]))):
+                if reent and not vec_close([float(r2[5][-1])], [float(r0[5][-1])]):
                     corr("resumed-final-error", r2[5][-1], r0[5][-1], sub)
             ctx.case(sub, nontrivial=True, sample=sub if ctx.evaluations < 2 else None)
+        if cfg["strategy"] == "dimwise" and i < m:
+            # second way to resume: hand the reached refinement back, performSpatiallyAdaptiv(..., refinement_container=...)
+            # on the same object (arrays start again; the refinement is re-initialised and re-evaluated)
+            sub = dict(case, L1=L1, index=i, mode="container")
+            tags = dict(base_tags, index=i, mode="container")
+            sa, eo, f = build(cfg)
+            try:
+                r1 = perform(sa, eo, cfg, L1)
+                r2 = perform(sa, eo, cfg, L2, container=sa.refinement)
+            except Exception as e:  # noqa: BLE001
+                ok = not ctx.violation("resume-via-container-raises", tags, sub, {"exception": "%s: %s" % (type(e).__name__, e)}) and ok
+                r2 = None
+            if r2 is not None:
+                V2 = view(sa, cfg)
+                res2, pts2, ev2 = result_of(r2), int(r2[6][-1]), int(r2[4])
+                differs = []
+                if V2["structure"] != V0["structure"] or V2["lmax"] != V0["lmax"]:
+                    differs.append("structure")
+                if V2["scheme"] != V0["scheme"]:
+                    differs.append("scheme")
+                if not vec_close(res2, res0):
+                    differs.append("result")
+                if pts2 != pts0 or int(sa.get_total_num_points()) != int(sa0.get_total_num_points()):
+                    differs.append("points")
+                if ev2 != ev0:
+                    differs.append("evaluations")
+                if [int(x) for x in r2[6]] != [x[1] for x in stream[i:]]:
+                    differs.append("point-array")      # the counts reported on the way must be those of the single run
+                if differs:
+                    ok = not ctx.violation("resume-via-container-vs-single", dict(tags, differs="+".join(differs)), sub,
+                                           {"differs": differs, "single": {"result": res0, "points": pts0, "evaluations": ev0, "stream_points": [x[1] for x in stream]},
+                                            "resumed": {"result": res2, "points": pts2, "evaluations": ev2, "points_array": [int(x) for x in r2[6]],
+                                                        "distinct_points_evaluated": len(f.seen)}}) and ok
+                else:
+                    mdl = parse_stop(drv.ask("run %s %s" % (lim_str(L2), stream_str(stream[i:]))))
+                    corr("container-resume-arrays", "stop i=%d pts=%s" % (len(r2[5]) - 1, [int(x) for x in r2[6]]),
+                         "nostop" if mdl is None else "stop i=%d pts=%s" % (mdl["i"], mdl["pts"]), sub)
+                ctx.count("container_resumes")
+                ctx.case(sub, nontrivial=True)
         if False in outcomes and True in outcomes and outcomes[False] != outcomes[True]:
             a, b = outcomes[False], outcomes[True]
             if not (a[0] == b[0] and vec_close(a[1], b[1]) and a[2:] == b[2:]):
@@ -273,20 +321,37 @@ def run(ctx):
     thorough = ctx.tier == "thorough"
     ctx.rule = ("configurations as in C13 (dimension-wise versions 2/3/6 and extend-split, dim 2-3, lmax 2-3, dyadic polynomial integrands with 1-3 "
                 "outputs, reference exact/perturbed/zero/none, norms inf/1/2); final limits stop by max_evaluations, by tolerance or by tolerance+min; "
-                "EVERY evaluation index of the uninterrupted run (incl. the last) is an interruption point, each with and without save/restore; "
+                "value cache on / deactivated, integrands scaled by 1e-12..1e8; plus a family of long dim-3 dimension-wise runs (final index 5-9); "
+                "EVERY evaluation index of the uninterrupted run (incl. the last) is an interruption point, each continued with continue_adaptive_refinement "
+                "with and without save/restore, and (dimension-wise) resumed via performSpatiallyAdaptiv(refinement_container=...); "
                 "a case is one (configuration, final limits, interruption index, save?) resume, all are non-trivial")
     drv = ctx.driver("drv_c13")
     _classes()
     max_index = 5 if not thorough else 11
     n_cfg = 60 if not thorough else 600
     budget = 80 if not thorough else 540
+    n_deep = 3 if not thorough else 24
     for k in range(n_cfg):
         if ctx.time_left(budget) < 0:
             break
-        cfg = c13.gen_cfg(ctx.rng, thorough)
+        deep = k < n_deep
+        if deep:
+            # dedicated family: dim 3, dimension-wise version 6 with rebalancing, LONG runs (final index 5..9): from about the
+            # fourth refinement on, points evaluated earlier have dropped out of every current component grid, so that a
+            # resumed run only reports the single run's point count if the evaluation record survives the interruption
+            r = ctx.rng
+            nout = r.choice([1, 1, 2])
+            cfg = {"strategy": "dimwise", "version": 6, "dim": 3, "lmax": 2,
+                   "coeffs": [[r.choice([0.25, 0.5, 1.0, 1.5, 2.0]) for _ in range(3)] for _ in range(nout)],
+                   "powers": [[r.choice([2, 2, 3, 4]) for _ in range(3)] for _ in range(nout)],
+                   "ref": r.choice(["exact", "perturbed", "none"]), "norm": r.choice(["inf", "1", "2"]),
+                   "scale": r.choice([1.0, 1.0, 1e-10, 1e8]), "cache": r.random() >= 0.5}
+            ctx.count("family_deep_dim3")
+        else:
+            cfg = c13.gen_cfg(ctx.rng, thorough)
         if cfg["ref"] == "partial_zero":
             cfg["ref"] = "exact"
-        cap = ctx.rng.choice([60, 90, 130] if cfg["dim"] == 2 else [120, 200])
+        cap = (480 if deep else ctx.rng.choice([60, 90, 130] if cfg["dim"] == 2 else [120, 200]))
         sa, eo, f = build(cfg)
         try:
             r = perform(sa, eo, cfg, {"tol": -1.0, "min": 1, "max": cap})
@@ -294,9 +359,14 @@ def run(ctx):
             ctx.count("scout_failed")
             continue
         scout = stream_of(r)
-        L2 = gen_final_limits(ctx.rng, scout, max_index, cfg["strategy"])
+        if deep:
+            mfin = min(len(scout) - 1, ctx.rng.randrange(5, 10))
+            L2 = {"tol": -1.0, "min": 1, "max": scout[mfin][1] - 1}
+        else:
+            L2 = gen_final_limits(ctx.rng, scout, max_index, cfg["strategy"])
         ctx.count("strategy_" + cfg["strategy"]); ctx.count("ref_" + cfg["ref"]); ctx.count("L2_" + ("max" if L2["tol"] < 0 else ("tol+min" if L2["tol"] >= 1e9 else "tol")))
-        check_config(ctx, drv, cfg, L2, max_index)
+        ctx.count("cache_%s" % cfg.get("cache", True))
+        check_config(ctx, drv, cfg, L2, 10 if deep else max_index)
         if (len(ctx.violations) + len(ctx.corr_breaks)) >= ctx.max_reports:
             break
 
